@@ -9,7 +9,8 @@ from common import Ctx, driver_batch, fmt
 
 PROPERTY = "C06"
 LEAN_MODULES = ["Proofs.C06", "Proofs.C06.Full", "Proofs.C06.Close", "Proofs.C06.CloseRel", "Proofs.C06.CloseReal",
-                "Proofs.C06.Inverse", "Proofs.C06.InverseLog", "Proofs.C06.InversePy", "Proofs.C06.Strengthen", "Proofs.C06.Converse", "Proofs.Numerics"]
+                "Proofs.C06.Inverse", "Proofs.C06.InverseLog", "Proofs.C06.InversePy", "Proofs.C06.Strengthen", "Proofs.C06.Converse", "Proofs.C06.ConverseLog",
+                "Proofs.Numerics"]
 DRIVERS = ["driver", "driver_tick"]
 EXTRA_THEOREM_PREFIXES = ["Num_"]   # Proofs/Numerics.lean: proved error bounds of the model's round35/dsqrt35, used by C06_inverse_x96_round35
 RULE = ("ticks: stride sample + boundaries + random (thorough: all 1 774 545); sqrt prices on, just above, in the middle of and just "
@@ -328,6 +329,16 @@ def helpers_correspondence(ctx: Ctx, hp, g):
                                 f"(decimals {d0},{d1}, token0_quote={q0})", dict(rp, sx=str(sx)))
                     continue
                 back = _exc_name(hp.tick_to_base_unit_price, max(MIN_TICK, min(MAX_TICK, r[1])), d0, d1, q0)
+                if route == "log" and back[0] == "ok" and price > 0 and MIN_TICK <= r[1] < MAX_TICK:
+                    # theorem C06_inverse_converse_log: the float-log route's tick brackets the price to 2e-8 relative (LgSound + 2^-30 closeness)
+                    nxt = _exc_name(hp.tick_to_base_unit_price, r[1] + 1, d0, d1, q0)
+                    ctx.count("converse_log_bracket_checked")
+                    if nxt[0] == "ok":
+                        dl, P, lo_p, hi_p = Fraction(2, 10 ** 8), Fraction(price), Fraction(back[1]), Fraction(nxt[1])
+                        okb = ((lo_p <= P * (1 + dl) and P * (1 - dl) <= hi_p) if not q0 else (P * (1 - dl) <= lo_p and hi_p <= P * (1 + dl)))
+                        if not okb:
+                            ctx.violate("helpers.inverse.converse.log.bracket", f"price {price} -> tick {r[1]} (float log) but the prices of ticks {r[1]}, {r[1] + 1} "
+                                        f"({back[1]}, {nxt[1]}) do not bracket it to 2e-8 (decimals {d0},{d1}, token0_quote={q0})", dict(rp, sx=str(sx)))
                 if route == "x96" and back[0] == "ok" and price > 0 and g(MIN_TICK) <= bx[1] < g(MAX_TICK) and MIN_TICK <= r[1] < MAX_TICK:
                     # theorem C06_inverse_converse(_round35): the answered tick brackets the price up to eleven 35-digit roundings
                     nxt = _exc_name(hp.tick_to_base_unit_price, r[1] + 1, d0, d1, q0)
